@@ -44,8 +44,8 @@ class LRule:
 
 # ---- reference semantics -------------------------------------------------------------------------------------------
 class S:
-    __slots__ = ('gid', 'adv', 'shift', 'user', 'parent', 'attx', 'atty')
-    def __init__(self, gid): self.gid = gid; self.adv = ADV[gid]; self.shift = 0; self.user = 0; self.parent = None; self.attx = 0; self.atty = 0
+    __slots__ = ('gid', 'adv', 'shift', 'user', 'user1', 'parent', 'attx', 'atty')
+    def __init__(self, gid): self.gid = gid; self.adv = ADV[gid]; self.shift = 0; self.user = 0; self.user1 = 0; self.parent = None; self.attx = 0; self.atty = 0
 
 
 def constraint_holds(rule, slots, i, feat):
@@ -54,6 +54,7 @@ def constraint_holds(rule, slots, i, feat):
     s = slots[i + idx]
     if kind == 'gattr': return (s.gid if k == GA0 else s.gid % 3) == v
     if kind == 'user': return s.user == v
+    if kind == 'user1': return s.user1 == v
     if kind == 'feat': return feat == v
     if kind == 'sadv': return s.adv == v          # slot attribute advance.x of the named item (may be a pre-context or a later item)
     if kind == 'sshift': return s.shift == v
@@ -90,6 +91,7 @@ def run_pass(rules, slots, feat):
                     elif a[0] == 'useradd': slots[pos].user += a[1]
                     elif a[0] == 'shift': slots[pos].shift = a[1]
                     elif a[0] == 'user': slots[pos].user = a[1]
+                    elif a[0] == 'user1': slots[pos].user1 = a[1]
                     elif a[0] == 'attach':
                         slots[pos].parent = slots[pos - 1]; slots[pos].attx = a[1]; slots[pos].atty = a[2]
                 if deleted: del slots[pos]
@@ -141,6 +143,7 @@ def compile_rule(rule):
             elif a[0] == 'useradd': code += push(a[1]) + A('IATTR_ADD', SLAT['userDefn'], 0)
             elif a[0] == 'shift': code += push(a[1]) + A('ATTR_SET', SLAT['shiftX'])
             elif a[0] == 'user': code += push(a[1]) + A('IATTR_SET', SLAT['userDefn'], 0)
+            elif a[0] == 'user1': code += push(a[1]) + A('IATTR_SET', SLAT['userDefn'], 1)
             elif a[0] == 'attach': code += push(-1) + A('ATTR_SET_SLOT', SLAT['attTo']) + push(a[1]) + A('ATTR_SET', SLAT['attX']) + push(a[2]) + A('ATTR_SET', SLAT['attY'])
         code += A('DELETE', 'NEXT') if deleted else A('NEXT')
     code += A('RET_ZERO') if rule.ret == 0 else push(rule.ret) + A('POP_RET')
@@ -149,6 +152,7 @@ def compile_rule(rule):
         idx, kind, k, v = rule.constraint
         if kind == 'gattr': body = A('PUSH_GLYPH_ATTR', 0, k, 0) + push(v) + A('EQUAL')
         elif kind == 'user': body = A('PUSH_ISLOT_ATTR', SLAT['userDefn'], 0, 0) + push(v) + A('EQUAL')
+        elif kind == 'user1': body = A('PUSH_ISLOT_ATTR', SLAT['userDefn'], 0, 1) + push(v) + A('EQUAL')
         elif kind == 'sadv': body = A('PUSH_SLOT_ATTR', SLAT['advX'], 0) + push(v) + A('EQUAL')
         elif kind == 'sshift': body = A('PUSH_SLOT_ATTR', SLAT['shiftX'], 0) + push(v) + A('EQUAL')
         else: body = A('PUSH_FEAT', 0, 0) + push(v) + A('EQUAL')
@@ -165,7 +169,7 @@ def compile_font(prog):
         passes.append(dict(maxloop=P.get('maxloop', 20), flags=0x20 if P.get('reverse') else 0, rules=[compile_rule(r) for r in P['rules']]))
         if P.get('positioning') and npos is None: npos = pi
     if npos is None: npos = len(passes)
-    silf = dict(version=3, passes=passes, classes=CLASSES, nlinear=NLINEAR, iSubst=0, iPos=npos, numUser=1, maxPre=2, maxPost=3, dir=prog['rtl'])
+    silf = dict(version=3, passes=passes, classes=CLASSES, nlinear=NLINEAR, iSubst=0, iPos=npos, numUser=2, maxPre=2, maxPost=3, dir=prog['rtl'])
     return dict(glyphs=glyphs, cmap=CMAP, num_attrs=16, silf=silf, names={256: 'F'}, feats=[(tag('tst1'), 256, 0, [(0, 256), (1, 256)])], langs=[])
 
 
@@ -273,6 +277,15 @@ def programs(tier):
             r2 = LRule(pre, [(IABCD, [('glyph', OX)]), (IABCD, [])], (idx, kind, 0, v))
             yield dict(kind='attr_read', passes=[dict(rules=[r2])], rtl=0)
             yield dict(kind='attr_read', passes=[dict(rules=[LRule([], [(IA, [('adv', 777), ('shiftadd', 20)])])]), dict(rules=[r2])], rtl=0)
+    # slot recycling: a user attribute (index 0 / 1) set on a slot that a later pass deletes; a still later INSERT must produce a fresh slot, which a
+    # third pass tests through a constraint on the inserted glyph
+    for ua, uk in (('user', 'user'), ('user1', 'user1')):
+        for v in (7, 300):
+            for delcls in (IA, IAB):
+                mark = LRule([], [(IAB, [(ua, v)])]); dele = LRule([], [(delcls, [('delete',)])]); ins = LRule([], [(IBC, [('insert', OX)])])
+                test = LRule([], [(IX, [('glyph', OY)])], (0, uk, 0, v))
+                yield dict(kind='stale_user', passes=[dict(rules=[mark]), dict(rules=[dele, ins]), dict(rules=[test])], rtl=0)
+                yield dict(kind='stale_user', passes=[dict(rules=[mark]), dict(rules=[dele]), dict(rules=[ins]), dict(rules=[test])], rtl=0)
     # class lookup: PUT_SUBS through lookup classes of every size 1..8 in two member orders; every member is substituted (alone and in a run)
     for (n, lay), (cin, cout) in sorted(SUBCLS.items()):
         mem = CLASSES[cin]; inv = {g: c for c, g in CMAP.items()}
